@@ -35,7 +35,7 @@ KNOWN_PREDICATES = {
     "C19-pix-size-not-square": lambda fmt, fl: fmt == "pix" and "pix_size_not_2k2" in fl,
     "C19-vef-pixel-count-unchecked": lambda fmt, fl: fmt == "vef" and "vef_pixel_count_mismatch" in fl,
     "C19-vef-palette-byte-ge-64": lambda fmt, fl: fmt == "vef" and "vef_palette_ge_64" in fl,
-    "C19-mge-rle-count-unchecked": lambda fmt, fl: fmt == "mge" and "mge_rle_count_mismatch" in fl,
+    "C19-mge-rle-count-unchecked": lambda fmt, fl: fmt == "mge" and ("mge_rle_terminator_before_image_is_full" in fl or "mge_rle_pairs_after_image_is_full" in fl),
     "C19-rat-run-overshoot": lambda fmt, fl: fmt == "rat" and "rat_run_overshoot" in fl,
     "C19-cm3-line-count-unchecked": lambda fmt, fl: fmt == "cm3" and "cm3_line_count_not_192" in fl,
 }
@@ -251,6 +251,30 @@ def enumerate_prefixes(fmt, base_index, lo=0, hi=None, step=1, switches=frozense
     return stats
 
 
+def enumerate_corruptions(fmt, base_index, part, nparts, stride=1, switches=frozenset()):
+    """Systematic single-byte corruption: every (strided) position of one small base file gets original+1, original-1,
+    0 and 255 - so every count / length / control byte is pushed just over and just under its value."""
+    stats = Stats()
+    base = BASES[fmt][base_index]
+    data, _ = base_bytes(base)
+    n = len(data)
+    positions = [p for p in range(n) if p < 64 or p >= n - 30 or p % stride == 0]
+    k = 0
+    for p in positions:
+        for val in sorted({(data[p] + 1) & 255, (data[p] - 1) & 255, 0, 255} - {data[p]}):
+            k += 1
+            if k % nparts != part:
+                continue
+            case = {"fmt": fmt, "base": base, "fault": {"kind": "corrupt", "pos": p, "val": val}}
+            try:
+                _run_one(stats, case)
+            except Violation as v:
+                stats.fail(v.detail, v.case)
+                return stats
+    stats.classes["systematic_corruption_%s_%d" % (fmt, base_index)] += 0
+    return stats
+
+
 def plan(tier, seed, switches):
     allf = ["hrs", "pix", "max", "mge", "rat", "cm3", "vef"]
     if tier == "quick":
@@ -260,7 +284,8 @@ def plan(tier, seed, switches):
                                          dict(fmt="pix", base_index=1), dict(fmt="max", base_index=0), dict(fmt="max", base_index=1),
                                          dict(fmt="max", base_index=2), dict(fmt="max", base_index=3),
                                          dict(fmt="mge", base_index=0, lo=0, hi=120), dict(fmt="rat", base_index=0, lo=0, hi=120),
-                                         dict(fmt="vef", base_index=0, lo=0, hi=120), dict(fmt="cm3", base_index=0, lo=0, hi=120)])]
+                                         dict(fmt="vef", base_index=0, lo=0, hi=120), dict(fmt="cm3", base_index=0, lo=0, hi=120)]),
+                 ("enumerate_corruptions", [dict(fmt=f, base_index=0, part=k, nparts=4, stride=st_) for f, st_ in (("mge", 7), ("rat", 9), ("vef", 31)) for k in range(4)])]
         return tasks
     tasks = [("campaign", [dict(seed=seed * 1000 + k, n=12000, fmts=["hrs", "pix", "max"], use_fixtures=False) for k in range(3)]
               + [dict(seed=seed * 1000 + 10 + k, n=1700, fmts=[["mge", "rat", "cm3", "vef"][k % 4]], use_fixtures=(k >= 8)) for k in range(13)]),
@@ -268,7 +293,10 @@ def plan(tier, seed, switches):
               + [dict(fmt="mge", base_index=0), dict(fmt="rat", base_index=0), dict(fmt="vef", base_index=0),
                  dict(fmt="cm3", base_index=0, step=7), dict(fmt="mge", base_index=1, step=5), dict(fmt="rat", base_index=1, step=5),
                  dict(fmt="vef", base_index=1, step=11), dict(fmt="hrs", base_index=2, step=257), dict(fmt="mge", base_index=2, step=263),
-                 dict(fmt="vef", base_index=2, step=131), dict(fmt="cm3", base_index=2, step=251)])]
+                 dict(fmt="vef", base_index=2, step=131), dict(fmt="cm3", base_index=2, step=251)]),
+             ("enumerate_corruptions", [dict(fmt=f, base_index=bi, part=k, nparts=8, stride=st_) for f, bi, st_ in
+                                        (("mge", 0, 1), ("mge", 1, 3), ("rat", 0, 1), ("rat", 1, 3), ("vef", 0, 2), ("vef", 1, 7), ("cm3", 0, 11), ("hrs", 0, 1), ("max", 0, 1), ("max", 2, 1))
+                                        for k in range(8)])]
     return tasks
 
 
